@@ -185,44 +185,58 @@ def r2_model_reader(ctx, res):
         if is_list is not None and is_list != (el in lst):
             res.find(key, lmf.relpath, f'<{el}> is {"" if el in lst else "not "}collected into a list but the model types {pkey!r} as '
                                        f'{"a list" if is_list else "a single value"}')
-    # conversions
+    # conversions (on the effect summaries of the validators: any spelling of "store the converted value back under the key")
+    import re as _re
+    from ..speccheck import view
     conv = {
-        ('_validate_forms', 'phonemic'): "pron['phonemic'] = False if pron['phonemic'] == 'false' else True",
-        ('_validate_senses', 'lexicalized'): "elem['lexicalized'] = False if elem['lexicalized'] == 'false' else True",
-        ('_validate_synsets', 'lexicalized'): "elem['lexicalized'] = False if elem['lexicalized'] == 'false' else True",
-        ('_validate_senses', 'subcat'): "elem['subcat'] = elem['subcat'].split()",
-        ('_validate_frames', 'senses'): "elem['senses'] = elem['senses'].split()",
-        ('_validate_synsets', 'members'): "elem['members'] = elem['members'].split()",
-        ('_validate_senses', 'value'): "cnt['value'] = int(cnt.pop('text'))",
+        ('_validate_forms', 'phonemic'): (r"^(\$\d+)\['phonemic'\] = \1\['phonemic'\] != 'false'$", "{}.get('phonemic')", 'bool: everything but "false" is True'),
+        ('_validate_senses', 'lexicalized'): (r"^(\$\d+)\['lexicalized'\] = \1\['lexicalized'\] != 'false'$", "{}.get('lexicalized')", 'bool'),
+        ('_validate_synsets', 'lexicalized'): (r"^(\$\d+)\['lexicalized'\] = \1\['lexicalized'\] != 'false'$", "{}.get('lexicalized')", 'bool'),
+        ('_validate_senses', 'subcat'): (r"^(\$\d+)\['subcat'\] = \1\['subcat'\]\.split\(\)$", "{}.get('subcat')", 'list of ids'),
+        ('_validate_frames', 'senses'): (r"^(\$\d+)\['senses'\] = \1\['senses'\]\.split\(\)$", "{}.get('senses')", 'list of ids'),
+        ('_validate_synsets', 'members'): (r"^(\$\d+)\['members'\] = \1\['members'\]\.split\(\)$", "{}.get('members')", 'list of ids'),
+        ('_validate_senses', 'value'): (r"^(\$\d+)\['value'\] = int\(\1\.pop\('text'\)\)$", "'text' in {}", 'int'),
     }
-    for (fname, k), stmt in conv.items():
-        f = ctx.repo.func('lmf', fname)
+    for (fname, k), (pat, guard, what) in conv.items():
+        v = view(ctx, 'lmf', fname)
         key = f'convert:{fname}:{k}'
-        res.inst(key, lmf.loc(f.node), stmt)
-        if stmt not in norm(f.node):
-            res.find(key, lmf.loc(f.node), f'{fname} no longer converts {k!r} with `{stmt}`: the loaded value has the wrong type for the model')
+        hits = []
+        for r in v.rows:
+            if r[0] == 'store':
+                m = _re.match(pat, r[1])
+                if m and guard.format(m.group(1)) in r[2]:
+                    hits.append(r)
+        res.inst(key, v.loc(), f'{len(hits)} converting stores ({what})')
+        stores = [r for r in v.rows if r[0] == 'store' and f"['{k}'] = " in r[1]]
+        if not hits or len(hits) != len(stores):
+            res.find(key, v.loc(), f'{fname} no longer converts {k!r} ({what}) whenever it is present: '
+                                   f'{sorted({r[1] for r in stores})[:2]}: the loaded value has the wrong type for the model')
     # character data may arrive in several callbacks (expat buffer boundaries, entity references): the handler must append
-    cd = ctx.repo.func('lmf', '_make_parser.<locals>.char_data')
+    cd = view(ctx, 'lmf', '_make_parser.<locals>.char_data')
     key = 'reader:text-accumulates'
-    augs = [n for n in walk_no_nested(cd.node) if isinstance(n, ast.AugAssign) and isinstance(n.op, ast.Add) and norm(n.target) == "parent['text']"]
-    plain = [n for n in walk_no_nested(cd.node) if isinstance(n, ast.Assign) and any(norm(t) == "parent['text']" for t in n.targets)]
-    res.inst(key, lmf.loc(cd.node), "parent['text'] += data")
+    augs = [r for r in cd.rows if r[0] == 'aug' and _re.match(r"^(.+)\['text'\] \+= data$", r[1])]
+    plain = [r for r in cd.rows if r[0] == 'store' and "['text'] = " in r[1]]
+    res.inst(key, cd.loc(), "<open element>['text'] += data")
     if len(augs) != 1 or plain:
-        res.find(key, lmf.loc(cd.node), "the character-data handler no longer appends to parent['text'] (expat delivers long or entity-bearing "
-                                        'text in several pieces; assigning keeps only the last piece, so text longer than the parser buffer is '
-                                        'truncated on load)')
-    mp = ctx.repo.func('lmf', '_make_parser')
+        res.find(key, cd.loc(), "the character-data handler no longer appends to the text of the open element (expat delivers long or "
+                                'entity-bearing text in several pieces; assigning keeps only the last piece, so text longer than the parser '
+                                'buffer is truncated on load)')
+    mp = view(ctx, 'lmf', '_make_parser')
     key = 'reader:handlers-installed'
-    src = Frag(mp.node)
-    res.inst(key, lmf.loc(mp.node), 'Start/End/CharacterData handlers')
-    for h in ('p.StartElementHandler = start', 'p.EndElementHandler = end', 'p.CharacterDataHandler = char_data'):
-        if h not in src:
-            res.find(key, lmf.loc(mp.node), f'the parser is no longer wired with `{h}`')
-    en = ctx.repo.func('lmf', '_make_parser.<locals>.end')
+    res.inst(key, mp.loc(), 'Start/End/CharacterData handlers')
+    for attr, fn in (('StartElementHandler', 'start'), ('EndElementHandler', 'end'), ('CharacterDataHandler', 'char_data')):
+        if not [r for r in mp.rows if r[0] == 'store' and _re.match(r'^#\d+\.' + attr + ' = ' + fn + '$', r[1]) and not r[2]]:
+            res.find(key, mp.loc(), f'the parser is no longer wired with `{attr} = {fn}`')
+    en = view(ctx, 'lmf', '_make_parser.<locals>.end')
     key = 'reader:whitespace-normalised'
-    res.inst(key, lmf.loc(en.node), "' '.join(elem['text'].split()) unless xml:space=preserve")
-    if "elem['text'] = ' '.join(elem['text'].split())" not in norm(en.node) or "elem.get(_XMLSPACEATTR, '') != 'preserve'" not in norm(en.node):
-        res.find(key, lmf.loc(en.node), 'text content is no longer whitespace-normalised (unless xml:space="preserve") at the end of an element')
+    res.inst(key, en.loc(), "' '.join(text.split()) unless xml:space=preserve")
+    okw = False
+    for r in en.rows:
+        m = _re.match(r"^(.+)\['text'\] = ' '\.join\((.+)\['text'\]\.split\(\)\)$", r[1]) if r[0] == 'store' else None
+        if m and m.group(1) == m.group(2) and f"{m.group(1)}.get(_XMLSPACEATTR, '') != 'preserve'" in r[2]:
+            okw = True
+    if not okw:
+        res.find(key, en.loc(), 'text content is no longer whitespace-normalised (unless xml:space="preserve") at the end of an element')
     # typed keys of the model that need a conversion are all in the table
     for cls, keys in model.classes.items():
         for k, (ann, req) in keys.items():
@@ -329,11 +343,12 @@ def r4_metadata_tables(ctx, res):
         res.find(key, lmf.loc(md.node), f'_meta_dict writes {diff} differently from what the reader maps back (dc:<k> <- meta[k] for the '
                                         f'Dublin Core keys, status/note/confidenceScore as plain attributes)')
     key = 'xmlns-dc'
-    d = ctx.repo.func('lmf', 'dump')
-    res.inst(key, lmf.loc(d.node), 'xmlns:dc taken from _DC_URIS[version]')
-    src = Frag(d.node)
-    if 'dc_uri = _DC_URIS[version]' not in src or 'xmlns:dc="{dc_uri}"' not in src.replace("'", '"'):
-        res.find(key, lmf.loc(d.node), 'dump() no longer declares xmlns:dc with the URI the reader maps for that version')
+    from ..speccheck import view
+    dv = view(ctx, 'lmf', 'dump')
+    res.inst(key, dv.loc(), 'xmlns:dc taken from _DC_URIS[version]')
+    roots = [r for r in dv.rows if r[0] == 'call' and r[1].startswith("print(f'<LexicalResource ")]
+    if len(roots) != 1 or 'xmlns:dc="{_DC_URIS[resource[\'lmf_version\']]}"' not in roots[0][1]:
+        res.find(key, dv.loc(), f'dump() no longer declares xmlns:dc with the URI the reader maps for that version: {[r[1][:90] for r in roots]}')
 
 
 def r5_escaping(ctx, res):
@@ -398,7 +413,7 @@ def _safe_print_arg(ctx, f, arg, depth=0):
                     ok = isinstance(elt, ast.JoinedStr) and all(
                         isinstance(p, ast.Constant) or (isinstance(p, ast.FormattedValue) and (
                             (isinstance(p.value, ast.Call) and norm(p.value.func) == 'quoteattr')
-                            or (isinstance(p.value, ast.Name) and p.value.id == 'attr')))
+                            or (isinstance(p.value, ast.Name) and _is_items_key(v.args[0], p.value.id))))
                         for p in elt.values)
                     kinds.add('quoteattr-quoted attributes' if ok else None)
                 elif isinstance(v, ast.Constant):
@@ -423,32 +438,43 @@ def _safe_print_arg(ctx, f, arg, depth=0):
     return None
 
 
+def _is_items_key(gen, name):
+    """`name` is the key variable of `for name, value in <dict>.items()` (attribute names come from constant keys)"""
+    for g in gen.generators:
+        if isinstance(g.target, ast.Tuple) and len(g.target.elts) == 2 and isinstance(g.target.elts[0], ast.Name) \
+                and g.target.elts[0].id == name and isinstance(g.iter, ast.Call) and isinstance(g.iter.func, ast.Attribute) \
+                and g.iter.func.attr == 'items':
+            return True
+    return False
+
+
 def _is_const_lookup(v):
     """_SCHEMAS[version] / _DC_URIS[version]: a lookup in a module-level constant table."""
     return isinstance(v, ast.Subscript) and isinstance(v.value, ast.Name) and v.value.id.startswith('_')
 
 
 def r6_header_constants(ctx, res):
-    lmf = ctx.repo.mod('lmf')
-    d = ctx.repo.func('lmf', 'dump')
-    src = Frag(d.node)
-    for key, needle, why in (
-            ('header:xmldecl', "print(_XMLDECL.decode('utf-8'), file=out)", 'the XML declaration _read_header compares against'),
-            ('header:doctype', 'doctype = _DOCTYPE.format(schema=_SCHEMAS[version])', 'the DOCTYPE line _DOCTYPES is derived from'),
-            ('header:doctype-printed', 'print(doctype, file=out)', 'the DOCTYPE line'),
-            ('header:version-checked', 'if version not in SUPPORTED_VERSIONS', 'the supported-version test')):
-        res.inst(key, lmf.loc(d.node), needle)
-        if needle not in src:
-            res.find(key, lmf.loc(d.node), f'dump() no longer uses {why} (`{needle}`): a dumped file may be rejected by is_lmf()/load()')
-    # order: declaration, doctype, root element
-    pnodes = sorted((n for n in walk_no_nested(d.node) if isinstance(n, ast.Call) and norm(n.func) == 'print'),
-                    key=lambda n: (n.lineno, n.col_offset))
-    prints = [norm(n.args[0]) if n.args else '' for n in pnodes]
+    """the first lines dump() writes are the ones _read_header / is_lmf compare against, in that order"""
+    from ..speccheck import view
+    dv = view(ctx, 'lmf', 'dump')
+    ver = "resource['lmf_version']"
+    prints = sorted((r for r in dv.rows if r[0] == 'call' and r[1].startswith('print(')), key=lambda r: (r[4].node.lineno, r[4].node.col_offset))
+    texts = [r[1] for r in prints]
+    want = [("header:xmldecl", "print(_XMLDECL.decode('utf-8'), file=", 'the XML declaration _read_header compares against'),
+            ("header:doctype", f"print(_DOCTYPE.format(schema=_SCHEMAS[{ver}]), file=", 'the DOCTYPE line _DOCTYPES is derived from'),
+            ("header:root", "print(f'<LexicalResource ", 'the root element')]
+    for i, (key, prefix, why) in enumerate(want):
+        res.inst(key, dv.loc(), prefix)
+        if i >= len(texts) or not texts[i].startswith(prefix):
+            res.find(key, dv.loc(), f'line {i + 1} written by dump() is `{texts[i][:70] if i < len(texts) else None}`; expected {why} '
+                                    f'(`{prefix}...`): a dumped file may be rejected by is_lmf()/load()')
     key = 'header:order'
-    res.inst(key, lmf.loc(d.node), f'{prints[:3]}')
-    if len(prints) < 3 or not (prints[0].startswith('_XMLDECL') and prints[1] == 'doctype' and 'LexicalResource' in prints[2]):
-        res.find(key, lmf.loc(d.node), '_read_header expects the XML declaration on line 1 and the DOCTYPE on line 2; dump() prints them '
-                                       f'in a different order: {prints[:3]}')
+    res.inst(key, dv.loc(), f'{[t[:30] for t in texts[:3]]}')
+    key = 'header:version-checked'
+    res.inst(key, dv.loc(), f'{ver} not in SUPPORTED_VERSIONS -> LMFError')
+    rs = [r for r in dv.rows if r[0] == 'raise']
+    if not any(f'{ver} not in SUPPORTED_VERSIONS' in r[2] for r in rs) or not all(f'{ver} in SUPPORTED_VERSIONS' in r[2] for r in prints):
+        res.find(key, dv.loc(), 'dump() no longer refuses versions outside SUPPORTED_VERSIONS before writing anything')
 
 
 def r7_writer_stateless(ctx, res):
